@@ -36,7 +36,7 @@
          LocalNetwork::null_space needs, because it calls lindep(i) (which calls solve(): a no-op only if is_solved) and defect().
 
    INSTANTIATION IDIOM.  Preserving P1 across the swap needs the permutation fact at the two positions exchanged (injectivity), i.e. at
-   indices other than the ghost one.  GV_PERM_INST(idx) first ASSERTS PERM_AT at the arbitrary ghost position gv_k0 at that very program
+   indices other than the ghost one.  `GV_P1_HERE; GV_INST(range, fact(idx))` first ASSERTS PERM_AT at the arbitrary ghost position gv_k0 at that very program
    point (so the universally quantified fact is proved there, by forall-introduction) and then assumes the instance PERM_AT(idx)
    (forall-elimination, through GV_INST, which also asserts that idx is in range).  Induction over program points: the first point where
    an instance were false would be a point where the assertion for the ghost fails for gv_k0 := that index.  In the block checks the
@@ -176,20 +176,15 @@ static inline _Bool gv_gp_at(const struct VecI *g, Index n1, Index k) { return !
 static inline _Bool gv_minx_at(const struct AdjCholDec *s, Index rows, Index m) { return MINX_AT(s, rows, m); }
 
 #ifdef GV_BOUNDED
-/* bounded check: concrete small arrays; the instances are ASSERTED, nothing is assumed */
-#define GV_PERM_INST(idx) __CPROVER_assert(1 <= (idx) && (idx) <= self->N && gv_perm_at(self, idx), "bounded: perm is a permutation at the position used here")
-#define GV_PERM_RANGE(idx) GV_PERM_INST(idx)
-#define GV_GP_INST(idx)   __CPROVER_assert(1 <= (idx) && (idx) <= N1 && gv_gp_at(&g_perm, N1, idx), "bounded: g_perm entry names a column of G")
-#define GV_MINX_INST(idx) __CPROVER_assert(gv_minx_at(self, M__p->rows, idx), "bounded: regularisation list entry names an unknown")
+/* bounded check: concrete small arrays; every instance is ASSERTED, nothing is assumed */
+#undef GV_INST
+#define GV_INST(range, fact) __CPROVER_assert((range) && (fact), "bounded: instance asserted on the concrete arrays: " #fact)
+#define GV_P1_HERE ((void)0)
+#define GV_GP_HERE ((void)0)
 #else
-#define GV_PERM_INST(idx) do { __CPROVER_assert(gv_perm_at(self, gv_k0), "P1 holds HERE for the arbitrary ghost position (justifies the instance taken next)"); \
-                               GV_INST(1 <= (idx) && (idx) <= self->N, gv_perm_at(self, idx)); } while (0)
-/* the weaker instance "perm(idx) is an unknown" (a consequence of PERM_AT(idx)): all that an element access needs */
-#define GV_PERM_RANGE(idx) do { __CPROVER_assert(gv_perm_at(self, gv_k0), "P1 holds HERE for the arbitrary ghost position (justifies the instance taken next)"); \
-                               GV_INST(1 <= (idx) && (idx) <= self->N, gv_perm_range(self, idx)); } while (0)
-#define GV_GP_INST(idx)   do { __CPROVER_assert(gv_gp_at(&g_perm, N1, gv_q0), "g_perm entries name columns of G HERE for the arbitrary ghost slot (justifies the instance taken next)"); \
-                               GV_INST(1 <= (idx) && (idx) <= N1, gv_gp_at(&g_perm, N1, idx)); } while (0)
-#define GV_MINX_INST(idx) GV_INST(0 <= (idx) && (idx) < self->minx_n, gv_minx_at(self, M__p->rows, idx))
+/* forall-introduction at the point of use: the fact holds HERE for the arbitrary ghost index; the GV_INST that follows takes an instance */
+#define GV_P1_HERE __CPROVER_assert(gv_perm_at(self, gv_k0), "P1 holds HERE for the arbitrary ghost position (justifies the instance taken next)")
+#define GV_GP_HERE __CPROVER_assert(gv_gp_at(&g_perm, N1, gv_q0), "g_perm entries name columns of G HERE for the arbitrary ghost slot (justifies the instance taken next)")
 #endif
 
 #define CH_HEAP_OK(s) ((s)->minx_n >= 0 && (s)->minx_n <= MAXDIM && ((s)->minx_t == ALL || (s)->minx_t == SUBSET) && \
@@ -253,7 +248,7 @@ __CPROVER_assigns(r, k, s, gv_payload)
 __CPROVER_loop_invariant(0 <= k && k <= self->minx_n)
 __CPROVER_decreases((long)self->minx_n - k)
 //@ head AdjCholDec_dot 1
-GV_MINX_INST(k);
+GV_INST(0 <= (k) && (k) < self->minx_n, gv_minx_at(self, M__p->rows, k));
 //@ end
 
 /* ================================================================ solve(): whole function */
@@ -287,7 +282,7 @@ __CPROVER_loop_invariant(1 <= column && column <= self->N + 1 && self->nullity =
    PERM_AT(self, gv_k0) && POS_AT(self, gv_v0))
 __CPROVER_decreases((long)self->N + 1 - column)
 //@ head AdjCholDec_solve 6
-GV_PERM_INST(column);
+GV_P1_HERE; GV_INST(1 <= (column) && (column) <= self->N, gv_perm_at(self, column));
 gv_pivnode = self->perm.p[column - 1];   /* ghost: the search starts with the diagonal of the node at position `column` */
 //@ tail AdjCholDec_solve 6
 gv_accepted++;                           /* ghost: this iteration accepted its pivot (a `break` does not come here) */
@@ -301,11 +296,11 @@ __CPROVER_loop_invariant(column + 1 <= i && i <= self->N + 1 && (ipvt == 0 || (c
    gv_pivnode == self->perm.p[(ipvt ? ipvt : column) - 1])
 __CPROVER_decreases((long)self->N + 1 - i)
 //@ head AdjCholDec_solve 7
-GV_PERM_RANGE(i);
+GV_P1_HERE; GV_INST(1 <= (i) && (i) <= self->N, gv_perm_range(self, i));
 //@ tail AdjCholDec_solve 7
 if (ipvt == i) gv_pivnode = self->perm.p[i - 1];   /* ghost: the diagonal of the node at position i became the pivot */
 //@ post AdjCholDec_solve 7
-if (ipvt) GV_PERM_INST(ipvt);
+if (ipvt) { GV_P1_HERE; GV_INST(1 <= (ipvt) && (ipvt) <= self->N, gv_perm_at(self, ipvt)); }
 //@ at AdjCholDec_solve aftswap
 /* ghost update of the witness: whatever sits at the two positions now has that position (written against the RESULT of the swap) */
 if (ipvt) {
@@ -314,7 +309,7 @@ if (ipvt) {
 }
 __CPROVER_assert(self->perm.p[column - 1] == gv_pivnode, "P2: the node moved to position `column` is the node whose diagonal was selected as pivot");
 __CPROVER_assert(gv_perm_at(self, gv_k0) && gv_pos_at(self, gv_v0), "P1: perm is a permutation after the pivot swap");
-GV_PERM_RANGE(column);
+GV_P1_HERE; GV_INST(1 <= (column) && (column) <= self->N, gv_perm_range(self, column));
 
 /* ---- inverse permutation */
 //@ loop AdjCholDec_solve 13
@@ -324,7 +319,7 @@ __CPROVER_loop_invariant(1 <= i && i <= self->N + 1 && PERM_AT(self, gv_k0) && P
    ((1 <= gv_k0 && gv_k0 < i) ==> self->invp.p[self->perm.p[gv_k0 - 1] - 1] == gv_k0))
 __CPROVER_decreases((long)self->N + 1 - i)
 //@ head AdjCholDec_solve 13
-GV_PERM_INST(i);
+GV_P1_HERE; GV_INST(1 <= (i) && (i) <= self->N, gv_perm_at(self, i));
 //@ post AdjCholDec_solve 13
 __CPROVER_assert(gv_invp_at(self, gv_v0), "P5: invp(v) is the position of unknown v (so perm(invp(v)) == v), for an arbitrary unknown");
 __CPROVER_assert(gv_inv2_at(self, gv_k0), "P5: invp(perm(k)) == k, for an arbitrary position");
@@ -343,17 +338,17 @@ __CPROVER_assigns(column, gv_payload, __CPROVER_object_whole(g_perm.p), self->x,
 __CPROVER_loop_invariant(1 <= column && column <= self->nullity + 1 && gv_exc == 0 && !self->is_solved && GP_AT(gv_q0))
 __CPROVER_decreases((long)self->nullity + 1 - column)
 //@ head AdjCholDec_solve 36
-GV_GP_INST(column);
+GV_GP_HERE; GV_INST(1 <= (column) && (column) <= N1, gv_gp_at(&g_perm, N1, column));
 //@ loop AdjCholDec_solve 37
 __CPROVER_assigns(i, gv_payload, pivot, ipvt)
 __CPROVER_loop_invariant(column + 1 <= i && i <= self->nullity + 1 && (ipvt == 0 || (column < ipvt && ipvt < i)))
 __CPROVER_decreases((long)self->nullity + 1 - i)
 //@ head AdjCholDec_solve 37
-GV_GP_INST(i);
+GV_GP_HERE; GV_INST(1 <= (i) && (i) <= N1, gv_gp_at(&g_perm, N1, i));
 //@ post AdjCholDec_solve 37
-if (ipvt) GV_GP_INST(ipvt);
+if (ipvt) { GV_GP_HERE; GV_INST(1 <= (ipvt) && (ipvt) <= N1, gv_gp_at(&g_perm, N1, ipvt)); }
 //@ head AdjCholDec_solve 39
-GV_GP_INST(col);
+GV_GP_HERE; GV_INST(1 <= (col) && (col) <= N1, gv_gp_at(&g_perm, N1, col));
 //@ at AdjCholDec_solve badreg
 __CPROVER_assert(self->N0 == self->N - self->nullity && gv_invp_at(self, gv_v0) && gv_perm_at(self, gv_k0),
                  "P7: when the regularisation is found bad the flags (nullity, N0, invp) are already final");
@@ -380,67 +375,67 @@ __CPROVER_assigns(i, gv_payload)
 __CPROVER_loop_invariant((column) <= i && (i <= (self->N) + 1 || i == (column)))
 __CPROVER_decreases(GV_MAX((long)(self->N) + 1 - i, 0))
 //@ head AdjCholDec_solve 8
-GV_PERM_RANGE(i);
+GV_P1_HERE; GV_INST(1 <= (i) && (i) <= self->N, gv_perm_range(self, i));
 //@ loop AdjCholDec_solve 9
 __CPROVER_assigns(j, gv_payload)
 __CPROVER_loop_invariant((i) <= j && (j <= (self->N) + 1 || j == (i)))
 __CPROVER_decreases(GV_MAX((long)(self->N) + 1 - j, 0))
 //@ head AdjCholDec_solve 9
-GV_PERM_RANGE(j);
+GV_P1_HERE; GV_INST(1 <= (j) && (j) <= self->N, gv_perm_range(self, j));
 //@ loop AdjCholDec_solve 10
 __CPROVER_assigns(j, gv_payload)
 __CPROVER_loop_invariant((column+1) <= j && (j <= (self->N) + 1 || j == (column+1)))
 __CPROVER_decreases(GV_MAX((long)(self->N) + 1 - j, 0))
 //@ head AdjCholDec_solve 10
-GV_PERM_RANGE(j);
+GV_P1_HERE; GV_INST(1 <= (j) && (j) <= self->N, gv_perm_range(self, j));
 //@ loop AdjCholDec_solve 11
 __CPROVER_assigns(i, gv_payload)
 __CPROVER_loop_invariant((j) <= i && (i <= (self->N) + 1 || i == (j)))
 __CPROVER_decreases(GV_MAX((long)(self->N) + 1 - i, 0))
 //@ head AdjCholDec_solve 11
-GV_PERM_RANGE(i);
+GV_P1_HERE; GV_INST(1 <= (i) && (i) <= self->N, gv_perm_range(self, i));
 //@ loop AdjCholDec_solve 12
 __CPROVER_assigns(pivot_row, gv_payload)
 __CPROVER_loop_invariant((column+1) <= pivot_row && (pivot_row <= (self->N) + 1 || pivot_row == (column+1)))
 __CPROVER_decreases(GV_MAX((long)(self->N) + 1 - pivot_row, 0))
 //@ head AdjCholDec_solve 12
-GV_PERM_RANGE(pivot_row);
+GV_P1_HERE; GV_INST(1 <= (pivot_row) && (pivot_row) <= self->N, gv_perm_range(self, pivot_row));
 //@ loop AdjCholDec_solve 14
 __CPROVER_assigns(i, gv_payload)
 __CPROVER_loop_invariant((self->N0+1) <= i && (i <= (self->N) + 1 || i == (self->N0+1)))
 __CPROVER_decreases(GV_MAX((long)(self->N) + 1 - i, 0))
 //@ head AdjCholDec_solve 14
-GV_PERM_RANGE(i);
+GV_P1_HERE; GV_INST(1 <= (i) && (i) <= self->N, gv_perm_range(self, i));
 //@ loop AdjCholDec_solve 15
 __CPROVER_assigns(ii, gv_payload)
 __CPROVER_loop_invariant((2) <= ii && (ii <= (self->N0) + 1 || ii == (2)))
 __CPROVER_decreases(GV_MAX((long)(self->N0) + 1 - ii, 0))
 //@ head AdjCholDec_solve 15
-GV_PERM_RANGE(ii);
+GV_P1_HERE; GV_INST(1 <= (ii) && (ii) <= self->N, gv_perm_range(self, ii));
 //@ loop AdjCholDec_solve 16
 __CPROVER_assigns(jj, gv_payload)
 __CPROVER_loop_invariant((1) <= jj && (jj <= (ii-1) + 1 || jj == (1)))
 __CPROVER_decreases(GV_MAX((long)(ii-1) + 1 - jj, 0))
 //@ head AdjCholDec_solve 16
-GV_PERM_RANGE(jj);
+GV_P1_HERE; GV_INST(1 <= (jj) && (jj) <= self->N, gv_perm_range(self, jj));
 //@ loop AdjCholDec_solve 17
 __CPROVER_assigns(ii, gv_payload)
 __CPROVER_loop_invariant((1) <= ii && (ii <= (self->N0) + 1 || ii == (1)))
 __CPROVER_decreases(GV_MAX((long)(self->N0) + 1 - ii, 0))
 //@ head AdjCholDec_solve 17
-GV_PERM_RANGE(ii);
+GV_P1_HERE; GV_INST(1 <= (ii) && (ii) <= self->N, gv_perm_range(self, ii));
 //@ loop AdjCholDec_solve 18
 __CPROVER_assigns(ii, gv_payload)
 __CPROVER_loop_invariant(ii <= (self->N0-1) && (ii >= (1) - 1 || ii == (self->N0-1)))
 __CPROVER_decreases(GV_MAX((long)ii - (1) + 1, 0))
 //@ head AdjCholDec_solve 18
-GV_PERM_RANGE(ii);
+GV_P1_HERE; GV_INST(1 <= (ii) && (ii) <= self->N, gv_perm_range(self, ii));
 //@ loop AdjCholDec_solve 19
 __CPROVER_assigns(jj, gv_payload)
 __CPROVER_loop_invariant((ii+1) <= jj && (jj <= (self->N0) + 1 || jj == (ii+1)))
 __CPROVER_decreases(GV_MAX((long)(self->N0) + 1 - jj, 0))
 //@ head AdjCholDec_solve 19
-GV_PERM_RANGE(jj);
+GV_P1_HERE; GV_INST(1 <= (jj) && (jj) <= self->N, gv_perm_range(self, jj));
 //@ loop AdjCholDec_solve 20
 __CPROVER_assigns(i, gv_payload)
 __CPROVER_loop_invariant((1) <= i && (i <= (self->M) + 1 || i == (1)))
@@ -450,43 +445,43 @@ __CPROVER_assigns(jj, gv_payload)
 __CPROVER_loop_invariant((1) <= jj && (jj <= (self->N0) + 1 || jj == (1)))
 __CPROVER_decreases(GV_MAX((long)(self->N0) + 1 - jj, 0))
 //@ head AdjCholDec_solve 21
-GV_PERM_RANGE(jj);
+GV_P1_HERE; GV_INST(1 <= (jj) && (jj) <= self->N, gv_perm_range(self, jj));
 //@ loop AdjCholDec_solve 22
 __CPROVER_assigns(column, gv_payload)
 __CPROVER_loop_invariant(column <= (self->N0) && (column >= (1) - 1 || column == (self->N0)))
 __CPROVER_decreases(GV_MAX((long)column - (1) + 1, 0))
 //@ head AdjCholDec_solve 22
-GV_PERM_RANGE(column);
+GV_P1_HERE; GV_INST(1 <= (column) && (column) <= self->N, gv_perm_range(self, column));
 //@ loop AdjCholDec_solve 23
 __CPROVER_assigns(kk, gv_payload, zii)
 __CPROVER_loop_invariant((column+1) <= kk && (kk <= (self->N0) + 1 || kk == (column+1)))
 __CPROVER_decreases(GV_MAX((long)(self->N0) + 1 - kk, 0))
 //@ head AdjCholDec_solve 23
-GV_PERM_RANGE(kk);
+GV_P1_HERE; GV_INST(1 <= (kk) && (kk) <= self->N, gv_perm_range(self, kk));
 //@ loop AdjCholDec_solve 24
 __CPROVER_assigns(row, gv_payload)
 __CPROVER_loop_invariant(row <= (column-1) && (row >= (1) - 1 || row == (column-1)))
 __CPROVER_decreases(GV_MAX((long)row - (1) + 1, 0))
 //@ head AdjCholDec_solve 24
-GV_PERM_RANGE(row);
+GV_P1_HERE; GV_INST(1 <= (row) && (row) <= self->N, gv_perm_range(self, row));
 //@ loop AdjCholDec_solve 25
 __CPROVER_assigns(kk, gv_payload, zij)
 __CPROVER_loop_invariant((row+1) <= kk && (kk <= (self->N0) + 1 || kk == (row+1)))
 __CPROVER_decreases(GV_MAX((long)(self->N0) + 1 - kk, 0))
 //@ head AdjCholDec_solve 25
-GV_PERM_RANGE(kk);
+GV_P1_HERE; GV_INST(1 <= (kk) && (kk) <= self->N, gv_perm_range(self, kk));
 //@ loop AdjCholDec_solve 26
 __CPROVER_assigns(i, gv_payload)
 __CPROVER_loop_invariant((1) <= i && (i <= (self->N0) + 1 || i == (1)))
 __CPROVER_decreases(GV_MAX((long)(self->N0) + 1 - i, 0))
 //@ head AdjCholDec_solve 26
-GV_PERM_RANGE(i);
+GV_P1_HERE; GV_INST(1 <= (i) && (i) <= self->N, gv_perm_range(self, i));
 //@ loop AdjCholDec_solve 27
 __CPROVER_assigns(j, gv_payload)
 __CPROVER_loop_invariant((1) <= j && (j <= (self->nullity) + 1 || j == (1)))
 __CPROVER_decreases(GV_MAX((long)(self->nullity) + 1 - j, 0))
 //@ head AdjCholDec_solve 27
-GV_PERM_RANGE(self->N0+j);
+GV_P1_HERE; GV_INST(1 <= (self->N0+j) && (self->N0+j) <= self->N, gv_perm_range(self, self->N0+j));
 //@ loop AdjCholDec_solve 28
 __CPROVER_assigns(column, gv_payload)
 __CPROVER_loop_invariant((1) <= column && (column <= (self->nullity) + 1 || column == (1)))
@@ -496,19 +491,19 @@ __CPROVER_assigns(ii, gv_payload)
 __CPROVER_loop_invariant(ii <= (self->N0-1) && (ii >= (1) - 1 || ii == (self->N0-1)))
 __CPROVER_decreases(GV_MAX((long)ii - (1) + 1, 0))
 //@ head AdjCholDec_solve 29
-GV_PERM_RANGE(ii);
+GV_P1_HERE; GV_INST(1 <= (ii) && (ii) <= self->N, gv_perm_range(self, ii));
 //@ loop AdjCholDec_solve 30
 __CPROVER_assigns(jj, gv_payload)
 __CPROVER_loop_invariant((ii+1) <= jj && (jj <= (self->N0) + 1 || jj == (ii+1)))
 __CPROVER_decreases(GV_MAX((long)(self->N0) + 1 - jj, 0))
 //@ head AdjCholDec_solve 30
-GV_PERM_RANGE(jj);
+GV_P1_HERE; GV_INST(1 <= (jj) && (jj) <= self->N, gv_perm_range(self, jj));
 //@ loop AdjCholDec_solve 31
 __CPROVER_assigns(i, gv_payload)
 __CPROVER_loop_invariant((1) <= i && (i <= (self->nullity) + 1 || i == (1)))
 __CPROVER_decreases(GV_MAX((long)(self->nullity) + 1 - i, 0))
 //@ head AdjCholDec_solve 31
-GV_PERM_RANGE(self->N0+i);
+GV_P1_HERE; GV_INST(1 <= (self->N0+i) && (self->N0+i) <= self->N, gv_perm_range(self, self->N0+i));
 //@ loop AdjCholDec_solve 32
 __CPROVER_assigns(j, gv_payload)
 __CPROVER_loop_invariant((1) <= j && (j <= (self->nullity) + 1 || j == (1)))
@@ -565,7 +560,7 @@ GV_CANARY("AdjCholDec_blk_perm_init entry");
 //@ end
 
 /* (2) one iteration of the pivot loop.  {forall k. PERM_AT(k), POS_AT(k)}  body  {forall k. PERM_AT(k), POS_AT(k)}:
-       the precondition is used through instances (GV_PERM_INST), the postcondition is proved at the arbitrary ghost indices.
+       the precondition is used through instances (GV_P1_HERE; GV_INST(...)), the postcondition is proved at the arbitrary ghost indices.
        Loop-level consequences (meta-argument over the verbatim loop header `for (Index column=1; column<=N; column++)`, which the extractor
        matches token by token): iterations 1..c-1 return without gv_brk and leave nullity == 0; the loop ends either after iteration N
        (N accepted pivots, nullity == 0 == N - N) or at the first iteration c that sets gv_brk (c-1 accepted pivots, nullity == N - (c-1));
@@ -580,7 +575,7 @@ __CPROVER_ensures(gv_brk ? self->nullity == self->N - (column - 1) : self->nulli
 __CPROVER_ensures(0 <= self->nullity && self->nullity <= self->N && gv_exc == 0)
 //@ entry AdjCholDec_blk_pivot_step
 GV_CANARY("AdjCholDec_blk_pivot_step entry");
-GV_PERM_INST(column);
+GV_P1_HERE; GV_INST(1 <= (column) && (column) <= self->N, gv_perm_at(self, column));
 gv_pivnode = self->perm.p[column - 1];
 //@ loop AdjCholDec_blk_pivot_step 1
 __CPROVER_assigns(i, gv_payload, pivot, ipvt, gv_pivnode)
@@ -588,11 +583,11 @@ __CPROVER_loop_invariant(column + 1 <= i && i <= self->N + 1 && (ipvt == 0 || (c
    gv_pivnode == self->perm.p[(ipvt ? ipvt : column) - 1])
 __CPROVER_decreases((long)self->N + 1 - i)
 //@ head AdjCholDec_blk_pivot_step 1
-GV_PERM_RANGE(i);
+GV_P1_HERE; GV_INST(1 <= (i) && (i) <= self->N, gv_perm_range(self, i));
 //@ tail AdjCholDec_blk_pivot_step 1
 if (ipvt == i) gv_pivnode = self->perm.p[i - 1];
 //@ post AdjCholDec_blk_pivot_step 1
-if (ipvt) GV_PERM_INST(ipvt);
+if (ipvt) { GV_P1_HERE; GV_INST(1 <= (ipvt) && (ipvt) <= self->N, gv_perm_at(self, ipvt)); }
 //@ at AdjCholDec_blk_pivot_step aftswap
 if (ipvt) {
   gv_pos.p[self->perm.p[column - 1] - 1] = column;
@@ -600,37 +595,37 @@ if (ipvt) {
 }
 __CPROVER_assert(self->perm.p[column - 1] == gv_pivnode, "P2: the node moved to position `column` is the node whose diagonal was selected as pivot");
 __CPROVER_assert(gv_perm_at(self, gv_k0) && gv_pos_at(self, gv_v0), "P1: perm is a permutation after the pivot swap");
-GV_PERM_RANGE(column);
+GV_P1_HERE; GV_INST(1 <= (column) && (column) <= self->N, gv_perm_range(self, column));
 //@ loop AdjCholDec_blk_pivot_step 2
 __CPROVER_assigns(i, gv_payload)
 __CPROVER_loop_invariant((column) <= i && (i <= (self->N) + 1 || i == (column)))
 __CPROVER_decreases(GV_MAX((long)(self->N) + 1 - i, 0))
 //@ head AdjCholDec_blk_pivot_step 2
-GV_PERM_RANGE(i);
+GV_P1_HERE; GV_INST(1 <= (i) && (i) <= self->N, gv_perm_range(self, i));
 //@ loop AdjCholDec_blk_pivot_step 3
 __CPROVER_assigns(j, gv_payload)
 __CPROVER_loop_invariant((i) <= j && (j <= (self->N) + 1 || j == (i)))
 __CPROVER_decreases(GV_MAX((long)(self->N) + 1 - j, 0))
 //@ head AdjCholDec_blk_pivot_step 3
-GV_PERM_RANGE(j);
+GV_P1_HERE; GV_INST(1 <= (j) && (j) <= self->N, gv_perm_range(self, j));
 //@ loop AdjCholDec_blk_pivot_step 4
 __CPROVER_assigns(j, gv_payload)
 __CPROVER_loop_invariant((column+1) <= j && (j <= (self->N) + 1 || j == (column+1)))
 __CPROVER_decreases(GV_MAX((long)(self->N) + 1 - j, 0))
 //@ head AdjCholDec_blk_pivot_step 4
-GV_PERM_RANGE(j);
+GV_P1_HERE; GV_INST(1 <= (j) && (j) <= self->N, gv_perm_range(self, j));
 //@ loop AdjCholDec_blk_pivot_step 5
 __CPROVER_assigns(i, gv_payload)
 __CPROVER_loop_invariant((j) <= i && (i <= (self->N) + 1 || i == (j)))
 __CPROVER_decreases(GV_MAX((long)(self->N) + 1 - i, 0))
 //@ head AdjCholDec_blk_pivot_step 5
-GV_PERM_RANGE(i);
+GV_P1_HERE; GV_INST(1 <= (i) && (i) <= self->N, gv_perm_range(self, i));
 //@ loop AdjCholDec_blk_pivot_step 6
 __CPROVER_assigns(pivot_row, gv_payload)
 __CPROVER_loop_invariant((column+1) <= pivot_row && (pivot_row <= (self->N) + 1 || pivot_row == (column+1)))
 __CPROVER_decreases(GV_MAX((long)(self->N) + 1 - pivot_row, 0))
 //@ head AdjCholDec_blk_pivot_step 6
-GV_PERM_RANGE(pivot_row);
+GV_P1_HERE; GV_INST(1 <= (pivot_row) && (pivot_row) <= self->N, gv_perm_range(self, pivot_row));
 //@ end
 
 /* (5) later uses of perm: one iteration each; precondition = state after the pivot loop and `N0 = N - nullity` */
@@ -639,7 +634,7 @@ __CPROVER_requires(BLK_AFTER_PIVOT(self) && self->N0 + 1 <= i && i <= self->N)
 __CPROVER_assigns(gv_payload)
 //@ entry AdjCholDec_blk_x0_zero
 GV_CANARY("AdjCholDec_blk_x0_zero entry");
-GV_PERM_RANGE(i);
+GV_P1_HERE; GV_INST(1 <= (i) && (i) <= self->N, gv_perm_range(self, i));
 //@ end
 
 //@ contract AdjCholDec_blk_forward
@@ -647,13 +642,13 @@ __CPROVER_requires(BLK_AFTER_PIVOT(self) && 2 <= ii && ii <= self->N0)
 __CPROVER_assigns(gv_payload)
 //@ entry AdjCholDec_blk_forward
 GV_CANARY("AdjCholDec_blk_forward entry");
-GV_PERM_RANGE(ii);
+GV_P1_HERE; GV_INST(1 <= (ii) && (ii) <= self->N, gv_perm_range(self, ii));
 //@ loop AdjCholDec_blk_forward 1
 __CPROVER_assigns(jj, gv_payload)
 __CPROVER_loop_invariant((1) <= jj && (jj <= (ii-1) + 1 || jj == (1)))
 __CPROVER_decreases(GV_MAX((long)(ii-1) + 1 - jj, 0))
 //@ head AdjCholDec_blk_forward 1
-GV_PERM_RANGE(jj);
+GV_P1_HERE; GV_INST(1 <= (jj) && (jj) <= self->N, gv_perm_range(self, jj));
 //@ end
 
 //@ contract AdjCholDec_blk_diag
@@ -661,7 +656,7 @@ __CPROVER_requires(BLK_AFTER_PIVOT(self) && 1 <= ii && ii <= self->N0)
 __CPROVER_assigns(gv_payload)
 //@ entry AdjCholDec_blk_diag
 GV_CANARY("AdjCholDec_blk_diag entry");
-GV_PERM_RANGE(ii);
+GV_P1_HERE; GV_INST(1 <= (ii) && (ii) <= self->N, gv_perm_range(self, ii));
 //@ end
 
 //@ contract AdjCholDec_blk_backward
@@ -669,13 +664,13 @@ __CPROVER_requires(BLK_AFTER_PIVOT(self) && 1 <= ii && ii <= self->N0 - 1)
 __CPROVER_assigns(gv_payload)
 //@ entry AdjCholDec_blk_backward
 GV_CANARY("AdjCholDec_blk_backward entry");
-GV_PERM_RANGE(ii);
+GV_P1_HERE; GV_INST(1 <= (ii) && (ii) <= self->N, gv_perm_range(self, ii));
 //@ loop AdjCholDec_blk_backward 1
 __CPROVER_assigns(jj, gv_payload)
 __CPROVER_loop_invariant((ii+1) <= jj && (jj <= (self->N0) + 1 || jj == (ii+1)))
 __CPROVER_decreases(GV_MAX((long)(self->N0) + 1 - jj, 0))
 //@ head AdjCholDec_blk_backward 1
-GV_PERM_RANGE(jj);
+GV_P1_HERE; GV_INST(1 <= (jj) && (jj) <= self->N, gv_perm_range(self, jj));
 //@ end
 
 //@ contract AdjCholDec_blk_residual
@@ -688,7 +683,7 @@ __CPROVER_assigns(jj, gv_payload)
 __CPROVER_loop_invariant((1) <= jj && (jj <= (self->N0) + 1 || jj == (1)))
 __CPROVER_decreases(GV_MAX((long)(self->N0) + 1 - jj, 0))
 //@ head AdjCholDec_blk_residual 1
-GV_PERM_RANGE(jj);
+GV_P1_HERE; GV_INST(1 <= (jj) && (jj) <= self->N, gv_perm_range(self, jj));
 //@ end
 
 //@ contract AdjCholDec_blk_cofactor
@@ -696,25 +691,25 @@ __CPROVER_requires(BLK_AFTER_PIVOT(self) && 1 <= column && column <= self->N0 &&
 __CPROVER_assigns(gv_payload)
 //@ entry AdjCholDec_blk_cofactor
 GV_CANARY("AdjCholDec_blk_cofactor entry");
-GV_PERM_RANGE(column);
+GV_P1_HERE; GV_INST(1 <= (column) && (column) <= self->N, gv_perm_range(self, column));
 //@ loop AdjCholDec_blk_cofactor 1
 __CPROVER_assigns(kk, gv_payload, zii)
 __CPROVER_loop_invariant((column+1) <= kk && (kk <= (self->N0) + 1 || kk == (column+1)))
 __CPROVER_decreases(GV_MAX((long)(self->N0) + 1 - kk, 0))
 //@ head AdjCholDec_blk_cofactor 1
-GV_PERM_RANGE(kk);
+GV_P1_HERE; GV_INST(1 <= (kk) && (kk) <= self->N, gv_perm_range(self, kk));
 //@ loop AdjCholDec_blk_cofactor 2
 __CPROVER_assigns(row, gv_payload)
 __CPROVER_loop_invariant(row <= (column-1) && (row >= (1) - 1 || row == (column-1)))
 __CPROVER_decreases(GV_MAX((long)row - (1) + 1, 0))
 //@ head AdjCholDec_blk_cofactor 2
-GV_PERM_RANGE(row);
+GV_P1_HERE; GV_INST(1 <= (row) && (row) <= self->N, gv_perm_range(self, row));
 //@ loop AdjCholDec_blk_cofactor 3
 __CPROVER_assigns(kk, gv_payload, zij)
 __CPROVER_loop_invariant((row+1) <= kk && (kk <= (self->N0) + 1 || kk == (row+1)))
 __CPROVER_decreases(GV_MAX((long)(self->N0) + 1 - kk, 0))
 //@ head AdjCholDec_blk_cofactor 3
-GV_PERM_RANGE(kk);
+GV_P1_HERE; GV_INST(1 <= (kk) && (kk) <= self->N, gv_perm_range(self, kk));
 //@ end
 
 //@ contract AdjCholDec_blk_G_fill
@@ -723,8 +718,8 @@ __CPROVER_requires(self->G.rows == self->N && self->G.cols == self->nullity + 1)
 __CPROVER_assigns(gv_payload)
 //@ entry AdjCholDec_blk_G_fill
 GV_CANARY("AdjCholDec_blk_G_fill entry");
-GV_PERM_RANGE(i);
-GV_PERM_RANGE(self->N0 + j);
+GV_P1_HERE; GV_INST(1 <= (i) && (i) <= self->N, gv_perm_range(self, i));
+GV_P1_HERE; GV_INST(1 <= (self->N0 + j) && (self->N0 + j) <= self->N, gv_perm_range(self, self->N0 + j));
 //@ end
 
 //@ contract AdjCholDec_blk_G_identity
@@ -733,7 +728,7 @@ __CPROVER_requires(self->G.rows == self->N && self->G.cols == self->nullity + 1)
 __CPROVER_assigns(gv_payload)
 //@ entry AdjCholDec_blk_G_identity
 GV_CANARY("AdjCholDec_blk_G_identity entry");
-GV_PERM_RANGE(self->N0 + i);
+GV_P1_HERE; GV_INST(1 <= (self->N0 + i) && (self->N0 + i) <= self->N, gv_perm_range(self, self->N0 + i));
 //@ end
 
 //@ contract AdjCholDec_blk_G_backward
@@ -742,13 +737,13 @@ __CPROVER_requires(self->G.rows == self->N && self->G.cols == self->nullity + 1)
 __CPROVER_assigns(gv_payload)
 //@ entry AdjCholDec_blk_G_backward
 GV_CANARY("AdjCholDec_blk_G_backward entry");
-GV_PERM_RANGE(ii);
+GV_P1_HERE; GV_INST(1 <= (ii) && (ii) <= self->N, gv_perm_range(self, ii));
 //@ loop AdjCholDec_blk_G_backward 1
 __CPROVER_assigns(jj, gv_payload)
 __CPROVER_loop_invariant((ii+1) <= jj && (jj <= (self->N0) + 1 || jj == (ii+1)))
 __CPROVER_decreases(GV_MAX((long)(self->N0) + 1 - jj, 0))
 //@ head AdjCholDec_blk_G_backward 1
-GV_PERM_RANGE(jj);
+GV_P1_HERE; GV_INST(1 <= (jj) && (jj) <= self->N, gv_perm_range(self, jj));
 //@ end
 
 /* (5)/(6) one step of the Gram-Schmidt orthogonalisation of G (regularisation): g_perm keeps naming columns of G; BadRegularization is raised
@@ -765,15 +760,15 @@ __CPROVER_ensures(gv_exc == GV_BadRegularization ==> (self->is_solved && self->x
 __CPROVER_ensures(gv_exc == 0 ==> !self->is_solved)
 //@ entry AdjCholDec_blk_gs_step
 GV_CANARY("AdjCholDec_blk_gs_step entry");
-GV_GP_INST(column);
+GV_GP_HERE; GV_INST(1 <= (column) && (column) <= N1, gv_gp_at(&g_perm, N1, column));
 //@ loop AdjCholDec_blk_gs_step 1
 __CPROVER_assigns(i, gv_payload, pivot, ipvt)
 __CPROVER_loop_invariant(column + 1 <= i && i <= self->nullity + 1 && (ipvt == 0 || (column < ipvt && ipvt < i)))
 __CPROVER_decreases((long)self->nullity + 1 - i)
 //@ head AdjCholDec_blk_gs_step 1
-GV_GP_INST(i);
+GV_GP_HERE; GV_INST(1 <= (i) && (i) <= N1, gv_gp_at(&g_perm, N1, i));
 //@ post AdjCholDec_blk_gs_step 1
-if (ipvt) GV_GP_INST(ipvt);
+if (ipvt) { GV_GP_HERE; GV_INST(1 <= (ipvt) && (ipvt) <= N1, gv_gp_at(&g_perm, N1, ipvt)); }
 //@ loop AdjCholDec_blk_gs_step 2
 __CPROVER_assigns(i, gv_payload)
 __CPROVER_loop_invariant((1) <= i && (i <= (self->N) + 1 || i == (1)))
@@ -783,7 +778,7 @@ __CPROVER_assigns(col, gv_payload)
 __CPROVER_loop_invariant((column+1) <= col && (col <= (N1) + 1 || col == (column+1)))
 __CPROVER_decreases(GV_MAX((long)(N1) + 1 - col, 0))
 //@ head AdjCholDec_blk_gs_step 3
-GV_GP_INST(col);
+GV_GP_HERE; GV_INST(1 <= (col) && (col) <= N1, gv_gp_at(&g_perm, N1, col));
 //@ loop AdjCholDec_blk_gs_step 4
 __CPROVER_assigns(i, gv_payload)
 __CPROVER_loop_invariant((1) <= i && (i <= (self->N) + 1 || i == (1)))
